@@ -25,6 +25,14 @@ pub struct ScriptState {
 
 thread_local! {
     static SCRIPT: RefCell<ScriptState> = RefCell::new(ScriptState::default());
+    static PRUNE: std::cell::Cell<Option<PruneFn>> = const { std::cell::Cell::new(None) };
+}
+
+/// optional horizon in terms of the draws seen so far: (trace, range of the pending draw, is it a Bernoulli draw) ->
+/// cut this branch (counts as DrawLimit: pruned, not a verdict). Used to cut retry rounds that offer the same choices again.
+pub type PruneFn = fn(&[(u32, u32)], u32, bool) -> bool;
+pub fn set_prune(f: Option<PruneFn>) {
+    PRUNE.with(|p| p.set(f));
 }
 
 pub fn begin(answers: &[u32], max_draws: usize) {
@@ -66,7 +74,7 @@ fn draw(wide: bool) -> u64 {
                 }
             }
             Some((n, is_bool)) => {
-                if s.trace.len() >= s.max_draws {
+                if s.trace.len() >= s.max_draws || PRUNE.with(|p| p.get()).is_some_and(|f| f(&s.trace, n as u32, is_bool)) {
                     drop(s);
                     panic!("{}", DRAW_LIMIT_MSG);
                 }
